@@ -24,7 +24,7 @@ OUT_OF_SCOPE = {'_zic_state_load_declarations': 'module state initialisation, '
 # PyObject_GetAttr(object, "__self__") is used after its Py_DECREF; it is
 # co-owned by the super object, which the caller keeps alive for the call and
 # whose __self__ is read-only.
-ACCEPTED = {('_adapter_hook', 'self'), ('_adapter_hook', 'object')}
+ACCEPTED = set()   # modelled in cown (Balance: co-owned __self__ of a parameter)
 
 
 def run(rep):
